@@ -13,7 +13,7 @@ func init() {
 		RealParts:  []string{"all ten mutators and mutateAllNonstructural, geneInsert / nodeInsert, the innovation lookup", "the real Population as innovation record in about half of the histories", "math/rand seeded from the tape per call"},
 		StubParts:  []string{"reference innovation registry in the other half", "fitness during the preparatory epochs"},
 		Assumes:    []string{"what the statement leaves open is not judged: the genome after a failed add-node / add-link / connect-sensors call is only counted (observation counters)"},
-		ProbeNames: []string{"probe.addnode.ok", "probe.addnode.recurrent_gene_split", "probe.addlink.ok", "probe.addlink.recurrent", "probe.connect.ok", "probe.toggle.refused_last_enabled", "probe.reenable.changed", "probe.innovation_reused", "probe.observation.failed_call_changed_genome"},
+		ProbeNames: []string{"probe.addnode.ok", "probe.addnode.recurrent_gene_split", "probe.addlink.ok", "probe.addlink.recurrent", "probe.connect.ok", "probe.toggle.refused_last_enabled", "probe.reenable.changed", "probe.innovation_reused", "probe.addnode.noop", "probe.addlink.noop", "probe.connect.noop"},
 	})
 }
 
@@ -92,8 +92,9 @@ func checkMutation(c *RunCtx, res *OpResult) {
 		}
 		if !res.Ok {
 			if before.Dump(false) != after.Dump(false) {
-				c.Count("probe.observation.failed_call_changed_genome")
+				c.Fail("addnode:noop-changed-genome", "the call reported that it did nothing, yet the genome changed\n%s", ctx())
 			}
+			c.Count("probe.addnode.noop")
 			return
 		}
 		c.Count("probe.addnode.ok")
@@ -174,8 +175,9 @@ func checkMutation(c *RunCtx, res *OpResult) {
 		}
 		if !res.Ok {
 			if before.Dump(false) != after.Dump(false) {
-				c.Count("probe.observation.failed_call_changed_genome")
+				c.Fail("addlink:noop-changed-genome", "the call reported that it did nothing, yet the genome changed\n%s", ctx())
 			}
+			c.Count("probe.addlink.noop")
 			return
 		}
 		c.Count("probe.addlink.ok")
@@ -210,8 +212,9 @@ func checkMutation(c *RunCtx, res *OpResult) {
 		}
 		if !res.Ok {
 			if before.Dump(false) != after.Dump(false) {
-				c.Count("probe.observation.failed_call_changed_genome")
+				c.Fail("connect:noop-changed-genome", "the call reported that it did nothing, yet the genome changed\n%s", ctx())
 			}
+			c.Count("probe.connect.noop")
 			return
 		}
 		c.Count("probe.connect.ok")
